@@ -765,11 +765,30 @@ func encodeBody(typeID uint16, v any) []byte {
 	return append(t, b...)
 }
 
+// lastSeq returns the sequence number of the last chunk of a direction
+// (policy None: the sequence header is readable).
 func lastSeq(p *chanpair.Pair, dir netx.Dir) uint32 {
 	var s uint32
 	for _, f := range p.Tap.Frames() {
-		if f.Dir == dir && f.Type() == "MSG" && len(f.Data) >= 24 {
+		if f.Dir != dir {
+			continue
+		}
+		switch {
+		case f.Type() == "MSG" && len(f.Data) >= 24:
 			s = binary.LittleEndian.Uint32(f.Data[16:])
+		case f.Type() == "OPN":
+			// header(12), then policy URI, sender certificate, receiver thumbprint (byte strings)
+			pos := 12
+			for i := 0; i < 3 && pos+4 <= len(f.Data); i++ {
+				n := int32(binary.LittleEndian.Uint32(f.Data[pos:]))
+				pos += 4
+				if n > 0 {
+					pos += int(n)
+				}
+			}
+			if pos+4 <= len(f.Data) {
+				s = binary.LittleEndian.Uint32(f.Data[pos:])
+			}
 		}
 	}
 	return s
